@@ -91,7 +91,7 @@ pub struct Pipe {
     pub misuse: Vec<String>,
     /// staged by a script: the RECEIVER's `poll_data` calls on this pipe report this connection error
     pub inject_recv: Option<Injected>,
-    /// staged by a script: the SENDER's `send_data` / `poll_ready` / `poll_finish` / `poll_send` calls on
+    /// staged by a script: the SENDER's `send_data` / `poll_ready` / `poll_send` calls on
     /// this pipe report this connection error
     pub inject_send: Option<Injected>,
 }
@@ -101,7 +101,7 @@ pub struct Pipe {
 pub enum InjectOn {
     /// `RecvStream::poll_data`
     Recv,
-    /// `SendStream::send_data` / `poll_ready` / `poll_finish`, `SendStreamUnframed::poll_send`
+    /// `SendStream::send_data` / `poll_ready`, `SendStreamUnframed::poll_send` (`poll_finish` never fails here)
     Send,
 }
 
@@ -682,7 +682,7 @@ impl NetInner {
 
     /// Stage a connection-level error that the transport reports to `side` on the operations of ONE
     /// half of stream `id` (from the next call on): `InjectOn::Recv` = `side`'s `poll_data`,
-    /// `InjectOn::Send` = `side`'s `send_data` / `poll_ready` / `poll_finish` / `poll_send`. The
+    /// `InjectOn::Send` = `side`'s `send_data` / `poll_ready` / `poll_send`. The
     /// connection is NOT closed and NO waker is woken: pending accepts, reads and writes of every
     /// other stream stay parked and go on working. A connection that is already dead for `side`
     /// (closed, timed out) reports that first.
